@@ -215,16 +215,23 @@ def generate(seed, count):
                 if len(set(m[2] for m in ms)) == len(ms):   # the library static_asserts unique selectors
                     break
             ty = '%s%d' % (prefix, i)
+            # every 5th interface: its first method name is also an object-like rename macro while the interface is
+            # declared (as <windows.h> does for SendMessage); the selector hashes the name AS WRITTEN
+            renamed = ms[0][0] if i % 5 == 2 else None
+            if renamed:
+                L.append('#define %s %sW_' % (renamed, renamed))
             L.append('struct %s : nop::Interface<%s> {' % (ty, ty))
             L.append('  %s(%s);' % (macro, c_literal(name)))
             for mn, sig, _ in ms:
                 L.append('  NOP_METHOD(%s, %s);' % (mn, sig))
             L.append('  NOP_INTERFACE_API(%s);' % ', '.join(m[0] for m in ms))
             L.append('};')
+            if renamed:
+                L.append('#undef %s' % renamed)
             idx = len(ifaces)
             ifaces.append((idx, 'gc::' + ty, bits, name, ih))
             for mn, _, sel in ms:
-                methods.append((idx, 'gc::' + ty, bits, mn, sel, non_ascii))
+                methods.append((idx, 'gc::' + ty, bits, mn, sel, non_ascii, (mn + 'W_') if mn == renamed else mn))
     L.append('}  // namespace gc')
 
     def flag(b):
@@ -241,8 +248,8 @@ def generate(seed, count):
     L.append('  /* end */')
     L.append('// X(interface_index, type, selector_bits, Method, "Method", expected selector, interface name non_ascii)')
     L.append('#define GEN_METHODS(X) \\')
-    for idx, ty, bits, mn, sel, na in methods:
-        L.append('  X(%d, %s, %d, %s, "%s", 0x%016xull, %d) \\' % (idx, ty, bits, mn, mn, sel, 1 if na else 0))
+    for idx, ty, bits, mn, sel, na, cpp_id in methods:
+        L.append('  X(%d, %s, %d, %s, "%s", 0x%016xull, %d) \\' % (idx, ty, bits, cpp_id, mn, sel, 1 if na else 0))
     L.append('  /* end */')
     L.append('')
     return '\n'.join(L)
